@@ -19,6 +19,15 @@ CHECKS = {
  "C18": ("exploration", "E-codec", "bounded-exhaustive enumeration of message-model shapes and of PER/ASN.1/GCC value domains, each encoded and decoded by the real code and by independent reference codecs",
          "Every message shape of <=4 nodes (<=5 thorough) over the library's model (integers of both endianness, byte blocks, Check, Trame, nested Component, size-dependent and skippable fields, trailing Option, trailing array) is written, measured and read back; every PER length 0..0x7FFF, PER integers (all u16, u32 boundaries; all 2^32 in thorough), integer16 (value,minimum) pairs and rows (all 2^31 pairs in thorough), every nibble-valid 6-arc OID over 7 values, octet and numeric strings; ASN.1 INTEGER/ENUMERATED/OCTET STRING boundaries and the tagged shapes of MCS/CredSSP against an independent DER codec; GCC request and every response of the reference encoder (versions x optional fields x 0..31 channels x block orders x unknown block).",
          "PER integer agreement is value-level (non-minimal 0xFF/0xFFFF spelling noted). Trusted: vref::{per,der,gcc}.", "§4 C18"),
+ "C10": ("exploration", "E-codec", "bounded-exhaustive enumeration of fast-path PDU sequences / update mixes / rectangle fields delivered to a really activated client; callback list compared with a reference parser",
+         "Sequences of <=2 (<=3 thorough) fast-path PDUs of 0..3 updates over a 19-letter update alphabet (bitmap updates with 0..3 rectangles, with/without TS_CD_HEADER, 13 other/unknown update codes), every rectangle field at its boundaries, depth x flag x data-length combinations, short/long length forms, reserved header bits, data lengths up to and beyond the 15-bit frame limit, are read by the real RdpClient::read on the raw stack; the bitmap callbacks must equal the reference parser's rectangle list in count, order, all fields and data bytes.",
+         "Scope as the statement: unfragmented, uncompressed updates with consistent numberRectangles. Trusted: vref::fastpath.", "§4 C10"),
+ "C11": ("exploration", "E-codec", "bounded-exhaustive enumeration of input event values and sequences on a really activated client, decoded by the reference peer",
+         "Every x, y and scancode in 0..65535, 4 buttons x 2 press states x boundary coordinates, every sequence of <=3 (<=4) events over a 9-letter alphabet (incl. an unsendable kind) alone and with a server PDU interleaved at every position, and server-assigned user/share ids are submitted through the real RdpClient::write; the reference peer strictly decodes each input PDU (identifiers, numEvents=1, exact fields and flag table) and checks count and order; refused kinds must put nothing on the wire.",
+         "PointerButton::None with down=true accepted as 0x0800 or 0x8800. Trusted: vref::{mcs,share}.", "§4 C11"),
+ "C12": ("model_checking", "E-fsm", "explicit-state BFS to fixpoint (stateright + closure) over the product of the real global::Client and a reference automaton, every transition executed on the real code; plus all unmerged histories to depth 5 (6 thorough)",
+         "Canonical state = (real automaton state id, share id) read through hook H2; from every reachable state all 12 server events are applied by replaying the history on a fresh real RdpClient (raw stack) with an input attempt via write and try_write after every step; clauses checked on every transition: exactly one confirm-active+finalization per demand-active in the awaiting state and nothing emitted otherwise, state advance only on the expected PDU, input accepted iff inside the font-map..deactivate-all window, refused input leaves no bytes, bitmap callbacks only inside the window. The merge is validated by exploring every history of length <=5 (<=6) unmerged and requiring every final key to lie in the BFS fixpoint.",
+         "Server PDUs are well-formed representatives (one encoding per letter). Deactivate-all during activation may be ignored or restart activation. Trusted: stateright, vref builders/parsers, hooks H2-H4.", "§4 C12, §3.1"),
  "C13": ("exploration", "E-codec", "bounded-exhaustive enumeration of frame streams x read schedules against a reference deframer, executed on the real tpkt/x224 readers",
          "Every TPKT length field (65536), every short fast-path length x first byte, every 15-bit long-form length, and every read schedule within the bound (caps, every single split, all pairs of splits inside headers, all 2^(n-1) compositions of short streams) is executed on the real tpkt::Client::read / x224::Client::read over an in-memory transport and compared frame by frame (kind, security flags, payload, bytes left in the transport) with an independent reference deframer. Exhaustive within these bounds, no sampling.",
          "Trusted: the reference deframer (vref::framing, validated by unit vectors), the in-memory Read. Undefined first bytes (action bits 1/2) are executed for totality only. Streams are three frames long; payload contents are position-coded, not enumerated.", "§4 C13"),
